@@ -402,6 +402,52 @@ func init() {
 					}
 				}
 			}
+			// closures of Exit that are not (nested in) the function literal handed to Do run on every call of Exit
+			var doFn *ssa.Function
+			if len(doCall.Common().Args) > 1 {
+				if mc, ok := resolve(doCall.Common().Args[1]).(*ssa.MakeClosure); ok {
+					doFn, _ = mc.Fn.(*ssa.Function)
+				} else if fn, ok := resolve(doCall.Common().Args[1]).(*ssa.Function); ok {
+					doFn = fn
+				}
+			}
+			inDo := map[*ssa.Function]bool{}
+			if doFn != nil {
+				for _, g := range withAnon(doFn) {
+					inDo[g] = true
+				}
+			}
+			for _, g := range withAnon(f) {
+				if g == f || inDo[g] {
+					continue
+				}
+				eachInstr(g, func(ins ssa.Instruction) {
+					switch x := ins.(type) {
+					case ssa.CallInstruction:
+						touches := false
+						for _, a := range x.Common().Args {
+							if typeIs(a.Type(), "core/base", "EntryContext") {
+								touches = true
+							}
+						}
+						if x.Common().IsInvoke() && typeIs(x.Common().Value.Type(), "core/base", "EntryContext") {
+							touches = true
+						}
+						if cal := x.Common().StaticCallee(); cal != nil && cal.Signature.Recv() != nil && typeIs(cal.Signature.Recv().Type(), "core/base", "SlotChain") {
+							touches = true
+						}
+						if touches {
+							n++
+							c.Violate(fmt.Sprintf("%s / outside-once#%d", fnKey(f), n), x.Pos(), "%s is called on the context / slot chain in a closure of Exit that is not inside the sync.Once (it runs on every Exit call): a late or repeated Exit resets or re-pools a context that may belong to another entry", calleeDesc(x))
+						}
+					case *ssa.Store:
+						if fa, ok := x.Addr.(*ssa.FieldAddr); ok && typeIs(fa.X.Type(), "core/base", "EntryContext") {
+							n++
+							c.Violate(fmt.Sprintf("%s / outside-once#%d", fnKey(f), n), x.Pos(), "store to a context field in a closure outside the sync.Once")
+						}
+					}
+				})
+			}
 			if n == 0 {
 				c.Hold(fnKey(f)+" / outside-once", f.Pos(), "outside the Once only locals are read and written")
 			}
@@ -678,7 +724,7 @@ func init() {
 	// -------------------------------------------------------------------------------- statistic slot effects
 
 	register(&Rule{
-		ID: "stat.effects", Props: []string{"C01", "C04"}, Floor: 6,
+		ID: "stat.effects", Props: []string{"C01", "C04", "C07"}, Floor: 6,
 		Doc: "effect signature of stat.Slot over its StatNode receivers (helpers inlined with parameter binding): OnEntryPassed = Inc + Add(Pass, batch) once on ctx.StatNode and, exactly under FlowType()==Inbound, on InboundNode(); OnEntryBlocked = Add(Block, batch) and no gauge change; OnCompleted = Add(Rt, rt) + Add(Complete, batch) + Dec once on the same nodes under the same guards, plus Add(Error, batch) exactly under err != nil with err = ctx.Err(); nothing in a loop",
 		Run: func(c *Ctx) {
 			slot := c.P.Named("core/stat.Slot")
@@ -842,6 +888,78 @@ func init() {
 				if !found {
 					c.Violate(fnKey(f)+" / delta", f.Pos(), "no atomic add on the gauge")
 				}
+			}
+		},
+	})
+
+	register(&Rule{
+		ID: "pool.reset-clears-references", Props: []string{"C16", "C01"}, Floor: 8,
+		Doc: "when a context is recycled (EntryContext.Reset and the reset methods it calls on the pooled SentinelInput and TokenResult) every field of these three structs that can carry state of the previous entry is written: each field is stored in the type's reset method, or is a pooled sub-object whose own reset method is called there. A surviving reference (e.g. the block error of the previous entry) shows up in a later, unrelated entry that receives the recycled context",
+		Run: func(c *Ctx) {
+			type spec struct{ typ, reset string }
+			specs := []spec{{"core/base.EntryContext", "core/base.(*EntryContext).Reset"}, {"core/base.SentinelInput", "core/base.(*SentinelInput).reset"}, {"core/base.TokenResult", "core/base.(*TokenResult).ResetToPass"}}
+			resetOf := map[*types.Named]*ssa.Function{}
+			for _, sp := range specs {
+				t, f := c.P.Named(sp.typ), c.P.Func(sp.reset)
+				if t == nil || f == nil {
+					c.AnchorLost(sp.typ + " / " + sp.reset)
+					return
+				}
+				resetOf[t] = f
+			}
+			// one named field, one reason
+			exempt := map[string]string{
+				"core/base.TokenResult.filterNodes":   "rewritten by outlier.Slot.Check on every request of an outlier resource before anybody reads it (guarded by outlier.lists-always-set)",
+				"core/base.TokenResult.halfOpenNodes": "same as filterNodes",
+			}
+			for _, sp := range specs {
+				t := c.P.Named(sp.typ)
+				f := resetOf[t]
+				st := t.Underlying().(*types.Struct)
+				for i := 0; i < st.NumFields(); i++ {
+					fld := st.Field(i)
+					key := fmt.Sprintf("%s / resets %s", fnKey(f), fld.Name())
+					if why, ok := exempt[sp.typ+"."+fld.Name()]; ok {
+						c.Info(key, f.Pos(), "exempt: %s", why)
+						continue
+					}
+					stored, subReset := false, false
+					eachInstr(f, func(ins ssa.Instruction) {
+						switch x := ins.(type) {
+						case *ssa.Store:
+							if fa, ok := x.Addr.(*ssa.FieldAddr); ok && resolve(fa.X) == ssa.Value(f.Params[0]) && fa.Field == i {
+								stored = true
+							}
+						case ssa.CallInstruction:
+							if sub := namedOf(fld.Type()); sub != nil && resetOf[sub] != nil && isStaticCallTo(x, resetOf[sub]) {
+								if ld, ok := x.Common().Args[0].(*ssa.UnOp); ok {
+									if fa, ok := ld.X.(*ssa.FieldAddr); ok && resolve(fa.X) == ssa.Value(f.Params[0]) && fa.Field == i {
+										subReset = true
+									}
+								}
+							}
+						}
+					})
+					c.Check(stored || subReset, key, f.Pos(), "field %s.%s is written on recycle (store: %v, own reset method called: %v)", t.Obj().Name(), fld.Name(), stored, subReset)
+				}
+			}
+		},
+	})
+
+	register(&Rule{
+		ID: "input.attachments-owned", Props: []string{"C06", "C05"}, Floor: 3,
+		Doc: "the attachment map of an entry (from which a ParamKey hotspot rule extracts its value at Entry and again at Exit) is a map allocated by the option functions themselves: every store to EntryOptions.attachments is a fresh make(map) or nil, never a map handed in by the caller, which the caller may re-fill while the entry is alive (the value released at Exit would differ from the value admitted)",
+		Run: func(c *Ctx) {
+			eo := c.P.Named("api.EntryOptions")
+			if eo == nil {
+				c.AnchorLost("api.EntryOptions")
+				return
+			}
+			for i, st := range fieldStores(c.P, eo, "attachments") {
+				v := resolve(st.st.Val)
+				_, fresh := v.(*ssa.MakeMap)
+				ok := fresh || isNilConst(v)
+				c.Check(ok, fmt.Sprintf("%s / store EntryOptions.attachments#%d", fnKey(st.fn), i+1), st.st.Pos(), "stores %s (want a map made here, or nil)", accessPath(st.st.Val))
 			}
 		},
 	})
